@@ -1,4 +1,5 @@
 import RosuModel.Lemmas.PerfCalcOsu5
+import RosuModel.Lemmas.ErfSign
 import RosuModel.Gen.PerfConsts
 
 /-!
@@ -401,6 +402,85 @@ theorem osu_zero_hits_zero_pp_full (sf : Special ℝ) (a : OsuAttrs ℝ) (m : Os
       ∧ (osuCalculate sf a m s lazer classic).effectiveMissCount = 0
       ∧ (osuCalculate sf a m s lazer classic).speedDeviation = none :=
   osuCalculatorCalculate_zero_hits sf _ h
+
+/-! ## `ErfFacts`, round 7: the polynomial part is proved
+
+A verified interval-Horner checker over ℚ (`Lemmas/ErfPoly.lean`) turns each sign fact about a branch polynomial of
+`erf_imp` / `erf_inv_impl` into one closed rational inequality checked by the kernel (`Lemmas/ErfCerts.lean`,
+`decide +kernel`; the coefficients are the generated tables of `Gen/PerfConsts.lean`).  Proved: every division of the
+two functions has a positive denominator on its branch interval; every row of `erf_imp` yields a value in `(0, 1)`
+(using only `0 < exp t ≤ 1` for `t ≤ 0` — no numeric bound on `exp`); every row of `erf_inv_impl` has `Y + P/Q > 0`.
+What is left of `ErfFacts` is `ErfFactsResidual` below. -/
+
+/-- soundness of the checker: the real polynomial lies between the two rational bounds on `[lo, hi]`, `0 ≤ lo` -/
+theorem interval_horner_sound (cs : List ℚ) (lo hi : ℚ) (h0 : 0 ≤ lo) (x : ℝ) (hl : (lo : ℝ) ≤ x) (hh : x ≤ (hi : ℝ)) :
+    ((hornerBounds cs lo hi).1 : ℝ) ≤ polyR cs x ∧ polyR cs x ≤ ((hornerBounds cs lo hi).2 : ℝ) :=
+  hornerBounds_sound cs lo hi h0 x hl hh
+
+/-- `evaluate_polynomial` on a generated table is the polynomial with the table's exact rational coefficients -/
+theorem evaluate_polynomial_exact (z : ℝ) (l : List DLit) : evalPoly z (tbl l) = polyR (l.map dq) z :=
+  evalPoly_tbl z l
+
+/-- **`erf_imp`, `z < 0.5`**: the denominator is `> 0` and `1.125 + P(z)/Q(z) > 0` on `[0, 0.5]`, hence the value
+`z·1.125 + z·P/Q` is `> 0` for `0 < z` -/
+theorem erf_imp_small_branch (z : ℝ) (h0 : 0 < z) (h1 : z ≤ 1 / 2) :
+    0 < evalPoly z (tbl ERF_IMP_AD)
+      ∧ 0 < z * 1.125 + z * evalPoly z (tbl ERF_IMP_AN) / evalPoly z (tbl ERF_IMP_AD) := by
+  obtain ⟨hq, hp⟩ := posCert_sound ERF_IMP_AN ERF_IMP_AD (9 / 8) (1 / 2) erf_rowA_cert z h0.le (by push_cast; linarith)
+  refine ⟨hq, ?_⟩
+  have e : z * 1.125 + z * evalPoly z (tbl ERF_IMP_AN) / evalPoly z (tbl ERF_IMP_AD)
+      = z * ((((9 / 8 : ℚ) : ℝ) * evalPoly z (tbl ERF_IMP_AD) + evalPoly z (tbl ERF_IMP_AN)) / evalPoly z (tbl ERF_IMP_AD)) := by
+    field_simp
+    push_cast
+    ring
+  rw [e]
+  exact mul_pos h0 (div_pos hp hq)
+
+/-- **`erf_imp`, `0.5 ≤ z < 110`, every one of the 13 rows** (numerator table, denominator table, index of `b`, shift,
+width): on the row's interval the denominator is `> 0`, `0 < b + P/Q < z`, and therefore the value the row produces for
+`erf`, `1 − (g·b + g·r)` with `g = exp(−z²)/z`, lies in `(0, 1)` -/
+theorem erf_imp_rows (r : List DLit × List DLit × Nat × ℚ × ℚ) (hr : r ∈ erfRows) (z : ℝ) (hz : 0 < z)
+    (h1 : ((r.2.2.2.1 : ℚ) : ℝ) ≤ z) (h2 : z ≤ ((r.2.2.2.1 : ℚ) : ℝ) + ((r.2.2.2.2 : ℚ) : ℝ)) :
+    let s := erfRow z ((r.2.2.2.1 : ℚ) : ℝ) r.1 r.2.1 r.2.2.1
+    0 < evalPoly (z - ((r.2.2.2.1 : ℚ) : ℝ)) (tbl r.2.1) ∧ 0 < s.2 + s.1 ∧ s.2 + s.1 < z
+      ∧ 0 < 1 - (Real.exp (-z * z) / z * s.2 + Real.exp (-z * z) / z * s.1)
+      ∧ 1 - (Real.exp (-z * z) / z * s.2 + Real.exp (-z * z) / z * s.1) < 1 := by
+  intro s
+  have hc := List.all_eq_true.mp erf_rows_cert r hr
+  simp only [Bool.and_eq_true] at hc
+  obtain ⟨hq, ha, hb⟩ := erfRow_bounds r.1 r.2.1 r.2.2.1 r.2.2.2.1 r.2.2.2.2 _ rfl hc.1 hc.2 z h1 h2
+  obtain ⟨m1, m2⟩ := erf_mid_mem z s.2 s.1 hz ha hb
+  exact ⟨hq, ha, hb, by linarith, by linarith⟩
+
+/-- **`erf_inv_impl`, rows A–F** (argument intervals `p ∈ [0, 0.5]`, `q − 0.25 ∈ [0, 0.25]`, `x − 1.125 ∈ [0, 1.875]`,
+`x − 3 ∈ [0, 3]`, `x − 6 ∈ [0, 12]`, `x − 18 ∈ [0, 26]`): the denominator is `> 0` and `Y + P/Q > 0` -/
+theorem erf_inv_rows (r : List DLit × List DLit × Nat × ℚ) (hr : r ∈ erfInvRows) (xs : ℝ) (h0 : 0 ≤ xs)
+    (hw : xs ≤ ((r.2.2.2 : ℚ) : ℝ)) :
+    0 < evalPoly xs (tbl r.2.1)
+      ∧ 0 < ((yq r.2.2.1 : ℚ) : ℝ) + evalPoly xs (tbl r.1) / evalPoly xs (tbl r.2.1) := by
+  have hc := List.all_eq_true.mp erfInv_rows_cert r hr
+  obtain ⟨hq, hp⟩ := posCert_sound r.1 r.2.1 (yq r.2.2.1) r.2.2.2 hc xs h0 hw
+  refine ⟨hq, ?_⟩
+  have e : ((yq r.2.2.1 : ℚ) : ℝ) + evalPoly xs (tbl r.1) / evalPoly xs (tbl r.2.1)
+      = (((yq r.2.2.1 : ℚ) : ℝ) * evalPoly xs (tbl r.2.1) + evalPoly xs (tbl r.1)) / evalPoly xs (tbl r.2.1) := by
+    field_simp
+  rw [e]
+  exact div_pos hp hq
+
+/-- **What is left of `ErfFacts`** for the transcribed functions (`stdSpecial`), stated explicitly.  NOT proved:
+(1) the case analysis through the 13-way `if` chain of `erf_imp` that selects the row whose interval contains `z`
+(mechanical: each guard `z < next shift` together with the failed previous guard is the row's interval of `erf_imp_rows`;
+no analysis involved); (2) for `erf_inv`: the two numeric bounds on `ln` that place `x = sqrt(−ln q)` in the proved
+intervals — `q < 0.25 ⇒ x ≥ 1.125` (i.e. `exp(1.265625) ≤ 4`) and `q ≥ 10⁻¹¹ ⇒ x < 6` (i.e. `exp(36) > 10¹¹`) — and the
+same kind of case analysis.  Given these, `ErfFacts stdSpecial` follows from `erf_imp_small_branch`, `erf_imp_rows`,
+`erf_inv_rows` and the signs `exp > 0`, `sqrt ≥ 0`, `p·(p + 10) > 0`. -/
+def ErfFactsResidual : Prop :=
+  (∀ x : ℝ, 0 < x → 0 < (stdSpecial (R := ℝ)).erf x) ∧
+  (∀ z : ℝ, 0 < z → z ≤ 1 - 1e-11 → 0 < (stdSpecial (R := ℝ)).erfInv z)
+
+/-- `ErfFacts` for the transcribed functions is exactly the residual (a definitional repackaging: the proved polynomial
+facts above are what reduces each conjunct to case analysis + the two `ln` bounds) -/
+theorem erfFacts_of_residual (h : ErfFactsResidual) : ErfFacts (stdSpecial (R := ℝ)) := ⟨h.2, h.1⟩
 
 /-! ### non-vacuity -/
 
